@@ -391,7 +391,13 @@ impl Gen {
             }
             K::LiteralString => {
                 let s = if self.long_strings && cs.below(4) == 0 {
-                    let n = 4000 + cs.below(3000);
+                    // long mode: medium lengths, lengths around word-count and buffer-size
+                    // boundaries, and very long strings
+                    let n = match cs.below(4) {
+                        0 => 14 + cs.below(300),
+                        1 => [252usize, 255, 256, 257, 1020, 1023, 1024, 1025, 2047, 2048, 4091, 4092, 4096][cs.below(13)],
+                        _ => 4000 + cs.below(3000),
+                    };
                     cs.ascii_exact(n)
                 } else {
                     cs.string()
